@@ -1,0 +1,50 @@
+//go:build verif
+
+// Verification hooks (add-only, compiled only with -tags verif): drive a rate meter
+// over a scripted counter with explicit sampling times instead of the 10 s wall-clock
+// timer, and read the per-window state. No logic of the package is duplicated here.
+package kxps
+
+import "time"
+
+// VerifSource is a scripted counter usable as KrpsSource and KbpsSource.
+type VerifSource struct{ V uint64 }
+
+func (s *VerifSource) NbRequests() uint64 { return s.V }
+func (s *VerifSource) TotalBytes() uint64 { return s.V }
+
+// VerifMeter wraps a Krps or Kbps built by the public constructors.
+type VerifMeter struct {
+	Src  *VerifSource
+	Krps Krps // nil for a bitrate meter
+	Kbps Kbps // nil for a request-rate meter
+	imp  *kxps
+}
+
+func VerifNewKrps() *VerifMeter {
+	s := &VerifSource{}
+	k := NewKrps(nil, s)
+	return &VerifMeter{Src: s, Krps: k, imp: k.(*krps).imp}
+}
+
+func VerifNewKbps() *VerifMeter {
+	s := &VerifSource{}
+	k := NewKbps(nil, s)
+	return &VerifMeter{Src: s, Kbps: k, imp: k.(*kbps).imp}
+}
+
+// MarkStarted sets the flag Start() sets, without launching the sampling goroutine
+// (which would sample at wall-clock times concurrently with the scripted history).
+func (m *VerifMeter) MarkStarted() { m.imp.started = true }
+
+// DoSample runs the sampling step at an explicit time.
+func (m *VerifMeter) DoSample(now time.Time) error { return m.imp.doSample(now) }
+
+// SampleAverage runs the average computation at an explicit time (unscaled, unguarded).
+func (m *VerifMeter) SampleAverage(now time.Time) float64 { return m.imp.sampleAverage(now) }
+
+// Window returns the state of window i (0: 10 s, 1: 30 s, 2: 300 s).
+func (m *VerifMeter) Window(i int) (rps float64, count uint64, last time.Time, interval time.Duration) {
+	s := []*sample{&m.imp.r10s, &m.imp.r30s, &m.imp.r300s}[i]
+	return s.rps, s.count, s.lastSample, s.interval
+}
